@@ -11,6 +11,17 @@ The Lean driver (`Driver/C03.lean`) answers for every case
 C03 fails only on `c03_missed`; C04 fails on `c04_not_embedding` outside K2's scope and on
 `c04_false_negative_acyclic`.
 
+OPTIONAL PATTERN NODES (`can_map_to_nothing != []`, C04 only; C03's statement quantifies over wildcard and ignore_case):
+the statement of C04 ("a function from ALL pattern nodes") cannot hold literally once a node may stay without a partner
+by design; it is read as "the whole pattern minus the optional nodes that were mapped to nothing".  Judged on every
+successful answer (Model/C04Opt.lean, Proofs/C04Opt.lean): anchor pair present, pairs name existing nodes, symbols
+admitted, a function to DISTINCT host nodes, every pattern bond between two mapped nodes on a host bond of equal order
+(`c04_not_embedding` = not a partial embedding), and every pattern node WITHOUT a partner carries a symbol that may map
+to nothing (`c04_required_node_unmapped`).  The last clause fails on the unchanged library when an optional node in the
+MIDDLE of the pattern is mapped to nothing (the nodes behind it are never looked at): known finding K12, classified
+narrowly (that clause and no other, implementation == model, the model fails the same clause).  The oracle clauses
+(an embedding exists / none exists) are not judged with optional nodes.
+
 ENTRY POINTS (tags entry:*): `map_anchored_subgraph`, the public `map_subgraph` with an explicit `subgraph_anchor`
 (keyword / positional, anchor 0 included, pattern ids not starting at 0 — the answer must be exactly the one-element
 list of the anchored answer: clause `c04_result_shape`) and without one (one entry per pattern node, each judged for
@@ -32,7 +43,7 @@ import networkx as nx
 import common
 from common import Atom, Case, ImplError, Run, call_impl, enc_graph, enc_mapper, prepare, sx
 
-PROOFS = ["FGVerif.Proofs.C03Perm", "FGVerif.Proofs.C03", "FGVerif.Proofs.C03Oracle", "FGVerif.Proofs.C04"]
+PROOFS = ["FGVerif.Proofs.C03Perm", "FGVerif.Proofs.C03", "FGVerif.Proofs.C03Oracle", "FGVerif.Proofs.C04", "FGVerif.Proofs.C04Opt"]
 
 MAX_HOST_DEGREE = 6      # the implementation enumerates itertools.permutations(all unvisited host neighbours): d! per call
 SYMS = ["C", "O", "N", "c"]
@@ -405,8 +416,8 @@ def anchored_case(prop, H, a, P, pa, margs, tags=(), meta=None, in_domain=True):
     req = [Atom(prop), Atom("anchored"), enc_mapper(*margs), enc_graph(H), int(a), enc_graph(P), int(pa)]
     hc, pc = has_cycle(H), has_cycle(P)
     connected = P.number_of_nodes() > 0 and nx.is_connected(P)
-    # can_map_to_nothing: pairs are not total by design, so C03 says nothing and of C04 only the
-    # clause "anchor pair present, every returned pair symbol-admitted" is judged (by the driver)
+    # can_map_to_nothing: pairs are not total by design, so C03 says nothing; C04 is judged by the clauses for
+    # optional nodes (partial embedding + every node without a partner is optional; by the driver)
     dom = in_domain and (not margs[2] or prop == "C04")
     if prop == "C04" and not connected:
         dom = False                             # C04 speaks about connected patterns
@@ -494,6 +505,27 @@ def parse(s, idx_offset=0):
 K2_WITNESSES = [("C1CC1", 0, "C(CC)CC", 0), ("CCCCC", 2, "C1CC1", 0)]
 
 
+def chain(syms, bonds=None):
+    return build([(i, s) for i, s in enumerate(syms)], [(i, i + 1, (bonds or [1] * len(syms))[i]) for i in range(len(syms) - 1)])
+
+
+def k12_corpus():
+    """(host smiles, host anchor, pattern graph, pattern anchor, mapper), tag"""
+    h = (None, False, ["H"])
+    return [
+        (("C", 0, chain(["C", "H", "O"]), 0, h), "k12_witness"),                       # (True, [(0,0)]): O never matched
+        (("CC", 0, chain(["C", "H", "O"]), 0, h), "k12_witness"),
+        (("CO", 0, chain(["C", "H", "O"]), 0, h), "cmtn_corpus"),                      # H cannot be skipped over: O stays unmapped
+        (("C=O", 1, parse("C(H)=O"), 2, h), "cmtn_corpus"),                            # the library's own test: optional leaf
+        (("C=O", 0, parse("C(H)=O"), 0, h), "cmtn_corpus"),
+        (("CC=O", 1, parse("C(H)=O"), 0, h), "cmtn_corpus"),
+        (("CCO", 1, parse("C(H)(H)O"), 0, h), "cmtn_corpus"),
+        (("CCO", 2, parse("C(H)(H)O"), 3, h), "cmtn_corpus"),
+        (("CCO", 1, parse("RC(H)(H)OR"), 1, ("R", False, ["H", "R"])), "cmtn_corpus"),
+        (("CO", 0, parse("RCOR"), 1, ("R", False, ["R"])), "cmtn_corpus"),            # optional wildcard leaves
+    ]
+
+
 def corpus_cases(prop):
     cases = []
     plain = ("R", False, [])
@@ -501,6 +533,9 @@ def corpus_cases(prop):
     for hs, a, ps, pa in K2_WITNESSES:
         cases.append(anchored_case(prop, parse(hs), a, parse(ps), pa, plain, tags=("corpus", "k2_witness"),
                                    meta={"corpus": "K2 witness host %s anchor %d pattern %s anchor %d" % (hs, a, ps, pa)}))
+    # known finding K12 (optional node in the middle of the pattern) and its well-behaved neighbours (optional leaves)
+    for (hs, a, P, pa, margs), tg in k12_corpus():
+        cases.append(anchored_case(prop, parse(hs), a, P, pa, margs, tags=("corpus", tg)))
     fixed = [
         ("CC(=O)OC", 1, "RC(=O)OR", 1, ("R", False, [])),          # ester, wildcards
         ("CC(=O)OC", 1, "C(=O)O", 0, ("R", False, [])),
@@ -515,6 +550,11 @@ def corpus_cases(prop):
         ("C=O", 0, "CO", 0, ("R", False, [])),                     # bond order differs
         ("CCCO", 1, "C(C)CO", 0, ("R", False, [])),
         ("NCC(O)C(O)CN", 2, "C(O)C(O)", 0, ("R", False, [])),
+        # deep recursion: a chain pattern of 10 atoms anchored at its end / in its middle (review 3, M1: a depth guard in _fit)
+        ("CCCCCCCCCCO", 1, "CCCCCCCCCO", 0, ("R", False, [])),
+        ("CCCCCCCCCCO", 10, "CCCCCCCCCO", 9, ("R", False, [])),
+        ("NCCCCCCCCCCCCCCCCCCCCCCCCO", 12, "CCCCCCCCCCCCCCCCCCCCCCCCO", 11, ("R", False, [])),
+        ("C1CCCCC1CCCCCCCCCCCCCCN", 0, "C1CCCCC1CCCCCCCCCCCCCCN", 0, ("R", False, [])),
     ]
     for hs, a, ps, pa, margs in fixed:
         cases.append(anchored_case(prop, parse(hs), a, parse(ps), pa, margs, tags=("corpus",)))
@@ -602,6 +642,268 @@ def gen_high_degree(rng):
         P.add_node(j, symbol=("R" if rng.random() < 0.2 else H.nodes[v]["symbol"]))
         P.add_edge(0, j, bond=H.edges[0, v]["bond"] if rng.random() < 0.9 else 3)
     return H, 0, P, 0
+
+
+# ---------------------------------------------------------------------------
+# DEEP cases: long chains / combs / rings with tails / sparse trees — patterns of 10-40 atoms in hosts of 12-60 atoms,
+# anchored at an end and in the middle, so that recursion depth, visited-set sizes and path lengths lie far beyond
+# any small constant; un-anchored scans in which only a late host node / a late pattern anchor succeeds.
+# The answer is known BY CONSTRUCTION wherever possible (`expect_exists`: the pattern is cut out of the host ->
+# an embedding exists; a symbol the host does not contain / more atoms than the host has -> none exists); the
+# driver's proved oracle must agree with it (a disagreement is a machinery failure, exit 2).
+# ---------------------------------------------------------------------------
+DEEP_SYMS = ["C", "N", "O", "S"]
+
+
+def _ids(rng, n, arbitrary):
+    return rng.sample(range(-5, 3 * n + 5), n) if arbitrary else list(range(n))
+
+
+def deep_host(rng, family):
+    """-> (n, syms, edges [(u, v, bond)], spine): positions 0..n-1; `spine` = positions along the longest designed path"""
+    nsym = rng.choice([1, 2, 2, 3])
+    alpha = rng.sample(DEEP_SYMS, nsym)
+    bonds = rng.choice([[1], [1], [1, 1, 1, 2]])
+    if family == "chain":
+        n = rng.choice([12, 16, 20, 24, 30, 40, 50, 60])
+        edges = [(i, i + 1) for i in range(n - 1)]
+        spine = list(range(n))
+    elif family == "comb":
+        b = rng.choice([10, 14, 20, 26, 30])
+        teeth = [i for i in range(b) if rng.random() < rng.choice([0.3, 0.6, 1.0])][: 60 - b]
+        n = b + len(teeth)
+        edges = [(i, i + 1) for i in range(b - 1)] + [(t, b + j) for j, t in enumerate(teeth)]
+        spine = list(range(b))
+    elif family == "ring_tail":
+        rsz = rng.choice([3, 5, 6, 6, 8])
+        tail = rng.choice([9, 12, 18, 25, 34, 50])
+        n = rsz + tail
+        edges = shape_ring(rsz) + [(0, rsz)] + [(i, i + 1) for i in range(rsz, n - 1)]
+        spine = [x for x in range(rsz // 2, -1, -1)] + list(range(rsz, n))        # half way round the ring, then the tail
+    else:                                   # sparse tree, degree <= 3, with a long path through it
+        b = rng.choice([10, 15, 20, 28])
+        n = min(60, b + rng.choice([4, 10, 20, 30]))
+        edges = [(i, i + 1) for i in range(b - 1)]
+        deg = [0] * n
+        for u, v in edges:
+            deg[u] += 1
+            deg[v] += 1
+        for i in range(b, n):
+            cand = [j for j in range(i) if deg[j] < 3]
+            j = rng.choice(cand)
+            edges.append((j, i))
+            deg[i] += 1
+            deg[j] += 1
+        spine = list(range(b))
+    syms = [rng.choice(alpha) for _ in range(n)]
+    if family in ("comb", "tree") and nsym == 1 and rng.random() < 0.7:
+        # all-equal symbols on a branching host make the implementation try every neighbour assignment at every level:
+        # keep the branching hosts mostly distinguishable (a second symbol off the spine)
+        other = rng.choice([s for s in DEEP_SYMS if s not in alpha])
+        for i in range(n):
+            if i not in spine and rng.random() < 0.8:
+                syms[i] = other
+    return n, syms, [(u, v, rng.choice(bonds)) for u, v in edges], spine
+
+
+def gen_deep_one(rng):
+    """one deep (host, anchor, pattern, pattern anchor, mapper, tags, expect_exists) input"""
+    family = rng.choice(["chain", "chain", "comb", "ring_tail", "tree"])
+    n, syms, edges, spine = deep_host(rng, family)
+    adj = {i: [] for i in range(n)}
+    for u, v, b in edges:
+        adj[u].append(v)
+        adj[v].append(u)
+    hid = _ids(rng, n, rng.random() < 0.6)
+    H = build([(hid[i], syms[i]) for i in range(n)], [(hid[u], hid[v], b) for u, v, b in edges], rng)
+    # the pattern: a connected part of the host that contains a long stretch of the spine (10-40 atoms)
+    k = min(rng.choice([10, 12, 15, 20, 25, 30, 40]), n)
+    L = min(len(spine), k)
+    L = rng.randint(max(1, min(L, 9)), L) if family != "chain" else L
+    s0 = rng.randint(0, len(spine) - L)
+    S = list(spine[s0:s0 + L])
+    seen = set(S)
+    while len(S) < k:
+        cand = [v for u in S for v in adj[u] if v not in seen]
+        if not cand:
+            break
+        v = rng.choice(cand)
+        S.append(v)
+        seen.add(v)
+    wild, ic = rng.choice([("R", False), ("R", False), (None, False), ("R", True), (None, True)])
+    pid = _ids(rng, len(S), rng.random() < 0.5)
+    rng.shuffle(pid)
+    mp = dict(zip(S, pid))
+    psym = {}
+    for u in S:
+        s = syms[u]
+        x = rng.random()
+        if wild == "R" and x < 0.12:
+            s = "R"
+        elif ic and x < 0.3:
+            s = s.swapcase()
+        psym[u] = s
+    # pattern bonds: a spanning tree (every bond of an acyclic part; of a ring all bonds, or all but one) of the induced part
+    pedges = [(u, v, b) for u, v, b in edges if u in seen and v in seen]
+    Pg = nx.Graph([(u, v) for u, v, _ in pedges])
+    if family == "ring_tail" and rng.random() < 0.4 and len(S) > 1 and not nx.is_forest(Pg):
+        cyc = nx.find_cycle(Pg)
+        drop = rng.choice(cyc)
+        pedges = [e for e in pedges if {e[0], e[1]} != {drop[0], drop[1]}]      # the ring opened: an acyclic pattern on a cyclic host
+    variant = rng.choice(["sub", "sub", "sub", "sub", "far_symbol", "far_swap", "far_bond", "too_big", "other_anchor"])
+    expect = True
+    # the anchor: an end of the spine stretch, its middle, or any pattern atom
+    where = rng.choice(["end", "end", "middle", "any"])
+    stretch = S[:L]
+    pa_pos = stretch[0] if where == "end" and rng.random() < 0.5 else stretch[-1] if where == "end" else stretch[L // 2] if where == "middle" else rng.choice(S)
+    a_pos = pa_pos
+    if variant == "far_symbol":
+        # the atom farthest from the anchor gets a symbol the host does not contain: no embedding (symbol count)
+        dist = nx.single_source_shortest_path_length(nx.Graph([(u, v) for u, v, _ in pedges]), pa_pos)
+        far = max(dist, key=lambda u: (dist[u], u))
+        psym[far] = "P" if not ic else "p"
+        expect = False
+    elif variant == "far_swap":
+        # the atom farthest from the anchor gets another symbol of the alphabet: judged by the oracle
+        dist = nx.single_source_shortest_path_length(nx.Graph([(u, v) for u, v, _ in pedges]), pa_pos)
+        far = max(dist, key=lambda u: (dist[u], u))
+        psym[far] = rng.choice([x for x in DEEP_SYMS if x.lower() != psym[far].lower()])
+        expect = None
+    elif variant == "far_bond" and pedges:
+        # the bond farthest from the anchor gets an order the host does not contain: no embedding
+        dist = nx.single_source_shortest_path_length(nx.Graph([(u, v) for u, v, _ in pedges]), pa_pos)
+        i = max(range(len(pedges)), key=lambda i: (min(dist[pedges[i][0]], dist[pedges[i][1]]), i))
+        pedges[i] = (pedges[i][0], pedges[i][1], 3)
+        expect = False
+    elif variant == "too_big":
+        # one more atom, of a symbol the host does not contain, somewhere on the stretch: no embedding (symbol count)
+        extra = max(mp.values()) + 1
+        at = rng.choice(stretch)
+        psym["x"] = "Q"
+        mp["x"] = extra
+        pedges.append((at, "x", 1))
+        S = S + ["x"]
+        expect = False
+    elif variant == "other_anchor":
+        a_pos = rng.randrange(n)
+        expect = None if a_pos != pa_pos else True
+    P = build([(mp[u], psym[u]) for u in S], [(mp[u], mp[v], b) for u, v, b in pedges], rng)
+    tags = ("deep", "deep:family=" + family, "deep:variant=" + variant, "deep:anchor=" + where,
+            "deep:|P|=%s" % bucket(P.number_of_nodes()), "deep:|H|=%s" % bucket(n))
+    return H, hid[a_pos], P, mp[pa_pos], (wild, ic, []), tags, expect, {"deep_embedding": {str(mp[u]): hid[u] for u in S if u != "x"}}
+
+
+def bucket(x):
+    return "<10" if x < 10 else "10-19" if x < 20 else "20-29" if x < 30 else "30-39" if x < 40 else "40-49" if x < 50 else "50+"
+
+
+def gen_deep_scan(rng):
+    """un-anchored scan in which only a LATE host node and a LATE pattern anchor succeed: host = chain 0..n-1 of one
+    symbol whose last atom (id n-1) carries the only N; pattern = N at the end of a chain of k-1 atoms, N inserted
+    last.  The first host node with an embedding is n-k."""
+    n = rng.choice([14, 18, 24, 30, 36])
+    k = rng.choice([3, 6, 10, 12])
+    k = min(k, n - 1)
+    c = rng.choice(["C", "O", "S"])
+    H = nx.Graph()
+    for i in range(n):
+        H.add_node(i, symbol=c if i < n - 1 else "N")
+    for i in range(n - 1):
+        H.add_edge(i, i + 1, bond=1)
+    variant = rng.choice(["sub", "sub", "too_long"])
+    if variant == "too_long":
+        k = n + 1 if n <= 24 else k
+        variant = "too_long" if k > n else "sub"
+    P = nx.Graph()
+    for j in range(k - 1):
+        P.add_node(j, symbol=c)
+    P.add_node(k - 1, symbol="N")
+    for j in range(k - 1):
+        P.add_edge(j, j + 1, bond=1)
+    return H, P, ("R", False, []), ("deep", "deep:family=scan", "deep:variant=" + variant, "deep:|P|=%s" % bucket(k), "deep:|H|=%s" % bucket(n),
+                                    "deep:first_host_anchor=%s" % bucket(max(0, n - k))), (k <= n)
+
+
+def gen_deep_cases(prop, rng, n):
+    cases = []
+    for i in range(n):
+        if i % 12 == 11:
+            H, P, margs, tags, expect = gen_deep_scan(rng)
+            cases.append(unanchored_case(prop, H, P, margs, tags=tags, meta={"expect_exists": expect}))
+            continue
+        H, a, P, pa, margs, tags, expect, meta = gen_deep_one(rng)
+        meta["expect_exists"] = expect
+        x = rng.random()
+        if x < 0.85:
+            cases.append(anchored_case(prop, H, a, P, pa, margs, tags=tags, meta=meta))
+        elif x < 0.93:
+            cases.append(mapsub_case(prop, H, a, P, pa, margs, rng.choice(["keyword", "positional"]), tags=tags, meta=meta))
+        else:
+            # one entry per pattern node (10-40 pattern anchors tried); the construction speaks about one of them only
+            meta["expect_exists"] = expect
+            cases.append(mapsub_case(prop, H, a, P, None, margs, "omitted", tags=tags, meta=meta))
+    return cases
+
+
+def gen_cmtn_cases(prop, rng, n):
+    """patterns with OPTIONAL nodes: a sub-structure of the host decorated with optional leaves (must match, the leaves
+    mapped to nothing or to a host neighbour), optional nodes in the middle of a pattern bond (known finding K12 or a
+    failure), hosts with and without the optional symbol"""
+    cases = []
+    for _ in range(n):
+        H, hkind, _ = gen_host(rng, anchored=True)
+        cm = rng.choice([["H"], ["H"], ["R"], ["H", "R"], ["O"], ["c"]])
+        wild = rng.choice(["R", "R", None])
+        ic = rng.random() < 0.25
+        if rng.random() < 0.3:
+            # the host carries the optional symbol on some leaves too
+            nxt = max(H.nodes) + 1
+            for u in rng.sample(list(H.nodes), min(2, H.number_of_nodes())):
+                H.add_node(nxt, symbol=rng.choice([c for c in cm if c != "R"] or ["H"]))
+                H.add_edge(u, nxt, bond=1)
+                nxt += 1
+        P, emb = gen_subpattern(rng, H, near_miss=rng.random() < 0.15, maxk=5 if hkind == "clique" else 7)
+        kind = rng.choice(["leaf", "leaf", "leaf", "middle", "plain"])
+        nxt = max(P.nodes) + 1
+        if kind == "leaf":
+            for _k in range(rng.randint(1, 3)):
+                P.add_node(nxt, symbol=rng.choice(cm))
+                P.add_edge(rng.choice([u for u in P.nodes if u != nxt]), nxt, bond=1)
+                nxt += 1
+        elif kind == "middle" and P.number_of_edges() > 0:
+            u, v = rng.choice(list(P.edges))
+            b = P.edges[u, v]["bond"]
+            P.remove_edge(u, v)
+            P.add_node(nxt, symbol=rng.choice(cm))
+            P.add_edge(u, nxt, bond=b)
+            P.add_edge(nxt, v, bond=rng.choice([1, b]))
+        if rng.random() < 0.7:
+            pa = rng.choice(list(emb))
+            a = emb[pa]
+        else:
+            pa = rng.choice(list(P.nodes))
+            a = rng.choice(list(H.nodes))
+        tags = ("cmtn:" + kind, "cmtn:list=" + ",".join(cm), "host:" + hkind)
+        x = rng.random()
+        if x < 0.8:
+            cases.append(anchored_case(prop, H, a, P, pa, (wild, ic, cm), tags=tags))
+        elif x < 0.9:
+            cases.append(mapsub_case(prop, H, a, P, pa, (wild, ic, cm), rng.choice(["keyword", "positional"]), tags=tags))
+        else:
+            cases.append(mapsub_case(prop, H, a, P, None, (wild, ic, cm), "omitted", tags=tags))
+    return cases
+
+
+def expectation_mismatches(outs):
+    """cases whose answer is known by construction, on which the driver's oracle says otherwise (machinery failure)"""
+    bad = []
+    for o in outs:
+        want = o.case.meta.get("expect_exists")
+        if want is None or not o.ok_reply:
+            continue
+        if (extras(o).get("exists") == "1") != want:
+            bad.append(o)
+    return bad
 
 
 def gen_cases(prop, rng, n):
@@ -777,6 +1079,8 @@ def _shard_worker(args):
     kind, prop, tier, seed, shard, n = args
     if kind == "gen":
         cases = gen_cases(prop, random.Random("%d/%d/%s" % (seed, shard, prop)), n)
+        cases += gen_deep_cases(prop, random.Random("deep/%d/%d/%s" % (seed, shard, prop)), max(20, n // 10))
+        cases += gen_cmtn_cases(prop, random.Random("cmtn/%d/%d/%s" % (seed, shard, prop)), max(20, n // 10))
         xlimit = 100
     else:
         cases = exhaustive_cases(prop, shard, n)
@@ -785,6 +1089,7 @@ def _shard_worker(args):
     outs = w.evaluate(cases, classify_known=make_classifier(prop))
     bad_cycle = tally(w, outs)
     bad_oracle = oracle_crosscheck(w, outs, xlimit)
+    bad_expect = expectation_mismatches(outs)
     if w.driver is not None:
         w.driver.close()
     slim = lambda lst: lst[:3]
@@ -793,7 +1098,8 @@ def _shard_worker(args):
             "spec_failures": slim(sorted(w.spec_failures, key=lambda o: len(o.case.line()))), "n_spec": len(w.spec_failures),
             "corr_failures": slim(sorted(w.corr_failures, key=lambda o: len(o.case.line()))), "n_corr": len(w.corr_failures),
             "driver_errors": slim(w.driver_errors), "known_hits": slim(w.known_hits), "n_known": len(w.known_hits),
-            "traces": w.traces_validated, "bad_cycle": bad_cycle, "bad_oracle": slim(bad_oracle), "n_bad_oracle": len(bad_oracle),
+            "traces": w.traces_validated, "bad_cycle": bad_cycle, "bad_oracle": slim(bad_oracle + bad_expect), "n_bad_oracle": len(bad_oracle) + len(bad_expect),
+            "n_expect": sum(1 for o in outs if o.case.meta.get("expect_exists") is not None and o.ok_reply),
             "xchecked": w.extra_cov.get("oracle_crosschecked_against_networkx_vf2", 0)}
 
 
@@ -811,7 +1117,7 @@ def merge_shard(r, res, totals):
     r.driver_errors += res["driver_errors"]
     r.known_hits += res["known_hits"]
     r.traces_validated += res["traces"]
-    for k in ("n_spec", "n_corr", "n_known", "bad_cycle", "n_bad_oracle", "xchecked"):
+    for k in ("n_spec", "n_corr", "n_known", "bad_cycle", "n_bad_oracle", "xchecked", "n_expect"):
         totals[k] = totals.get(k, 0) + res[k]
     if res["kind"] == "exh":
         totals["exhaustive"] = totals.get("exhaustive", 0) + res["evaluations"]
@@ -832,24 +1138,35 @@ def extras(o):
 
 def make_classifier(prop):
     k2 = next((f for f in common.load_known_findings() if f["id"] == "K2" and f.get("status") == "open"), None)
+    k12 = next((f for f in common.load_known_findings() if f["id"] == "K12" and f.get("status") == "open"), None)
 
     def classify(o):
         """K2's scope, decided per case by the oracle (not by input name, not by the model's answer):
         the implementation reports success, the returned pairs are not an embedding (driver:
         isEmbedding false), no other clause fails, and host or pattern has a cycle (driver:
         isForestB false)"""
-        if prop != "C04" or k2 is None or not o.ok_reply:
+        if prop != "C04" or not o.ok_reply:
             return None
         e = extras(o)
-        # the recorded defect is in the algorithm, so the MODEL shows it too: a failure is inside K2's
-        # scope only if implementation and model agree on this input (flag and pair set) and the
-        # model fails the same clause.  A new defect that merely happens to show on a cyclic graph
-        # (implementation != model) is a violation, not a known finding.
-        if not o.corr or e.get("model_failed") != ["c04_not_embedding"]:
+        # the recorded defects are in the algorithm, so the MODEL shows them too: a failure is inside a finding's
+        # scope only if implementation and model agree on this input (flag and pair set) and the model fails the same
+        # clauses.  A new defect that merely happens to show on a cyclic graph / with optional nodes (implementation
+        # != model) is a violation, not a known finding.
+        failed, model_failed = e.get("failed") or [], e.get("model_failed") or []
+        if not o.corr or not failed or sorted(failed) != sorted(model_failed):
             return None
-        if e.get("failed") == ["c04_not_embedding"] and (e.get("host_cycle") == "1" or e.get("pattern_cycle") == "1"):
-            return k2
-        return None
+        allowed = set()
+        # K2: success, the returned pairs are not an embedding (with optional nodes: not a partial embedding), host or
+        # pattern has a cycle (driver: isForestB false)
+        if k2 is not None and (e.get("host_cycle") == "1" or e.get("pattern_cycle") == "1"):
+            allowed.add("c04_not_embedding")
+        # K12 (optional node in the middle of the pattern mapped to nothing, the nodes behind it never matched): NARROW —
+        # can_map_to_nothing != [] and the failing clause is "a required pattern node has no partner"
+        if k12 is not None and o.case.meta.get("mapper", [None, None, []])[2]:
+            allowed.add("c04_required_node_unmapped")
+        if not set(failed) <= allowed:
+            return None
+        return k12 if failed == ["c04_required_node_unmapped"] else k2
 
     return classify
 
@@ -937,11 +1254,23 @@ def run(prop, tier, seed):
     r.extra_cov["k2_witnesses_reproduced"] = "%d/%d" % (k2_repro, len(K2_WITNESSES))
     if k2_repro != len(K2_WITNESSES):
         print("NOTE property=%s known finding K2: only %d of %d witnesses reproduce on this tree" % (prop, k2_repro, len(K2_WITNESSES)))
+    k12_repro = sum(1 for o in outs if "k12_witness" in o.case.tags and o.ok_reply and extras(o).get("failed") == ["c04_required_node_unmapped"])
+    k12_n = sum(1 for o in outs if "k12_witness" in o.case.tags)
+    r.extra_cov["k12_witnesses_reproduced"] = "%d/%d" % (k12_repro, k12_n)
+    if prop == "C04" and k12_repro != k12_n:
+        print("NOTE property=%s known finding K12: only %d of %d witnesses reproduce on this tree" % (prop, k12_repro, k12_n))
     totals = {}
     if tier == "quick":
         outs += r.evaluate(gen_cases(prop, rng, 8000), classify_known=classify)
+    # DEEP cases (every run, also thorough's main process): patterns of 10-40 atoms in hosts of 12-60 atoms
+    outs += r.evaluate(gen_deep_cases(prop, random.Random("deep/%d/%s" % (seed, prop)), 700), classify_known=classify)
+    # OPTIONAL pattern nodes (can_map_to_nothing; in domain for C04 only)
+    outs += r.evaluate(gen_cmtn_cases(prop, random.Random("cmtn/%d/%s" % (seed, prop)), 600), classify_known=classify)
     bad_cycle = tally(r, outs)
     bad_oracle = oracle_crosscheck(r, outs, 500)
+    bad_expect = expectation_mismatches(outs)
+    n_expect = sum(1 for o in outs if o.case.meta.get("expect_exists") is not None and o.ok_reply)
+    bad_oracle += bad_expect
     n_bad_oracle, xchecked = len(bad_oracle), r.extra_cov["oracle_crosschecked_against_networkx_vf2"]
     if tier != "quick":
         import multiprocessing as mp
@@ -956,6 +1285,7 @@ def run(prop, tier, seed):
         bad_cycle += totals.get("bad_cycle", 0)
         n_bad_oracle += totals.get("n_bad_oracle", 0)
         xchecked += totals.get("xchecked", 0)
+        n_expect += totals.get("n_expect", 0)
         if not bad_oracle and "bad_oracle_example" in totals:
             bad_oracle = [totals["bad_oracle_example"]]
         r.extra_cov["exhaustive_small_cases"] = totals.get("exhaustive", 0)
@@ -965,6 +1295,8 @@ def run(prop, tier, seed):
         r.extra_cov["known_finding_hits"] = base[2] + totals.get("n_known", 0)
     r.extra_cov["oracle_crosschecked_against_networkx_vf2"] = xchecked
     r.extra_cov["oracle_disagreements"] = n_bad_oracle
+    r.extra_cov["oracle_checked_against_answers_known_by_construction"] = n_expect
+    r.extra_cov["deep_cases"] = {k[len("tag:deep:"):]: v for k, v in sorted(r.dist.items()) if k.startswith("tag:deep:")}
     r.extra_cov["cycle_oracle_vs_networkx_disagreements"] = bad_cycle
     r.extra_cov["cases_by_entry_point"] = {k[len("tag:entry:"):]: v for k, v in sorted(r.dist.items()) if k.startswith("tag:entry:")}
     r.extra_cov["cases_by_input_form"] = {k[len("tag:form:"):]: v for k, v in sorted(r.dist.items()) if k.startswith("tag:form:")}
@@ -972,8 +1304,9 @@ def run(prop, tier, seed):
     r.assumptions = [
         "networkx Graph enters the model as insertion-ordered node list + insertion-ordered adjacency rows (Model/Graph.lean); itertools.permutations order is modelled by Perm.arrangements",
         "hosts are limited to degree <= %d and cliques to <= 7 nodes (patterns on cliques to <= 5 nodes): the implementation enumerates all d! permutations of the unvisited host neighbours per call and walks every simple path of a dense pattern" % MAX_HOST_DEGREE,
-        "inputs with can_map_to_nothing != [] (pairs are not total by design) and, for C04, disconnected patterns are generated but counted out of domain",
-        "the oracle existsEmbedding is proved exact on well-formed graphs (existsEmbedding_sound, existsEmbedding_complete); it is additionally cross-checked against networkx VF2 on every run",
+        "inputs with can_map_to_nothing != []: out of domain for C03 (its statement quantifies over wildcard and ignore_case); for C04 the statement is read as 'the whole pattern minus the optional nodes mapped to nothing' — judged: partial embedding (anchor pair, admitted symbols, injective function, bonds between mapped nodes) and every node without a partner optional (Model/C04Opt.lean; failure of the latter on the unchanged library = known finding K12); the oracle clauses are not judged with optional nodes; disconnected patterns are counted out of domain for C04",
+        "the oracle existsEmbedding is proved exact on well-formed graphs (existsEmbedding_sound, existsEmbedding_complete); it is additionally cross-checked against networkx VF2 on every run and, on the deep cases, against the answer known by construction (a disagreement is a machinery failure)",
+        "sizes: random hosts 3-12 atoms / patterns <= 7 atoms; deep families hosts 12-60 atoms / patterns 10-41 atoms (recursion depth up to 40); larger inputs are not sampled",
         "correspondence observes the flag (C03) / the flag and the pair set on success (C04); agreement of the returned visited sets is recorded only (no caller reads them)",
         "the theorems assume canMapToNothing = [] and well-formed simple graphs (C03.WF, checked per case by wfB: tag wf=0 counts violations)",
     ]
@@ -981,7 +1314,7 @@ def run(prop, tier, seed):
         # a proof obligation or the correspondence broke and no input violating the property was
         # found in this run's sample: search a thorough-size random sample (16 processes)
         import multiprocessing as mp
-        jobs = [("gen", prop, "thorough", seed + 1000003, s, 4000) for s in range(32)]
+        jobs = [("gen", prop, "thorough", seed + 1000003, s, 4000) for s in range(32)]   # each with 400 deep cases
         with mp.Pool(16) as pool:
             for res in pool.imap(_shard_worker, jobs):
                 merge_shard(r, res, totals)
@@ -1001,10 +1334,16 @@ def run(prop, tier, seed):
              "wherever the pattern has a node 0, pattern ids not starting at 0) / map_subgraph without anchor 12% of the anchored cases, map_subgraph_to_graph every 4th case "
              "(tags entry:*); INPUT FORMS on host and/or pattern, each kind in 12% of the cases, combinable (tags form:*): extra node / edge attributes, numpy integers as "
              "node ids, nx.freeze, sub-graph views of a larger graph — the answer is judged by the same clauses and compared with the plain form's (form:answer_equals_plain_form); "
+             "DEEP cases in every run (700 quick; a tenth of every thorough shard; tags deep:*): chains / combs / rings with a tail / sparse trees of 12-60 atoms with patterns of "
+             "10-40 atoms cut out of them (symbols blurred / case-flipped, ring opened), anchored at an end, in the middle or anywhere, through all three anchored entry points; "
+             "variants with the answer known by construction (cut-out: exists; a symbol or bond order the host lacks at the atom farthest from the anchor, one atom too many: none) "
+             "or judged by the oracle (far atom re-labelled, other host anchor); un-anchored scans over chains of 14-36 atoms in which only host node n-k and the last pattern anchor succeed; "
+             "OPTIONAL pattern nodes (600 quick; tags cmtn:*): sub-structure patterns decorated with 1-3 optional leaves (H / R / a host symbol), optional nodes in the middle of a bond, "
+             "hosts that do or do not carry the optional symbol, can_map_to_nothing in {[H],[R],[H,R],[O],[c]} — in domain for C04 only; "
              "non-trivial = host and pattern with >= 3 nodes, distinct by request; thorough adds all pattern/host pairs "
              "over connected graphs <= 5 nodes x 2 symbols (un-anchored; all anchor pairs up to 3 nodes)",
         checker_cmd="cd lean && lake build " + " ".join(PROOFS) + " && lake env lean FGVerif/Audit/%s.lean" % prop,
-        explanation="theorems in lean/FGVerif/Proofs/{C03Perm,C03,C03Oracle,C04}.lean about Model/Subgraph.lean; model tied to fgutils.algorithm.subgraph by differential testing; "
+        explanation="theorems in lean/FGVerif/Proofs/{C03Perm,C03,C03Oracle,C04,C04Opt}.lean about Model/Subgraph.lean; model tied to fgutils.algorithm.subgraph by differential testing; "
                     "executable spec (isEmbedding / existsEmbedding, proved sound and complete in Model/C03Spec.lean + Proofs/C03Oracle.lean) applied to every implementation output")
     return rc if rc == 1 else max(rc, rc_machinery)
 
